@@ -2,6 +2,30 @@
 //! {no features, alloc, std} x {half, no half}.  The binary itself uses std for I/O; only the
 //! features of the minicbor dependency vary, so the `#[cfg(not(feature = "alloc"))]` code paths of the
 //! library are compiled and executed.  Protocol as harness/: <binary> <casefile> <outfile>.
+#[path = "../../harness/src/util.rs"]
+#[allow(dead_code)]
+mod util;
+#[path = "../../harness/src/canon.rs"]
+#[allow(dead_code)]
+mod canon;
+#[path = "../../harness/src/ops_serde.rs"]
+#[allow(dead_code)]
+mod ops_serde;
+
+/// the bridge's serializer into a fixed slice (to_vec does not exist without alloc)
+mod sser {
+    pub fn to_vec<T: serde::Serialize>(v: &T) -> Result<Vec<u8>, ()> {
+        let mut buf = vec![0u8; 1 << 16];
+        let n = {
+            let mut s = minicbor_serde::Serializer::new(minicbor::encode::write::Cursor::new(&mut buf[..]));
+            v.serialize(&mut s).map_err(|_| ())?;
+            s.encoder().writer().position()
+        };
+        buf.truncate(n);
+        Ok(buf)
+    }
+}
+
 use minicbor::data::{Int, Tag, Tagged, Type};
 use minicbor::{Decode, Decoder, Encode, Encoder};
 use std::io::{BufRead, BufWriter, Write};
@@ -191,6 +215,10 @@ fn handle(toks: &[&str]) -> String {
         "CE" => run_enc(toks[1], toks[2]),
         "CL" => run_len(toks[1], &unhex(toks[2])),
         "CK" => run_tokens(&unhex(toks[1])),
+        // the serde bridge: the type family and value text of harness/src/ops_serde.rs (the last token names the configuration)
+        // (the round-trip oracle of these handlers belongs to C17; here only the outcome is compared across configurations)
+        "CSER" => { let r = ops_serde::ser_handler(&toks[1 ..]); r.split('\t').next().unwrap_or("").to_string() }
+        "CDES" => { let r = ops_serde::de_handler(&toks[1 ..]); r.split('\t').next().unwrap_or("").to_string() }
         _ => "?unknown-op".into()
     }
 }
